@@ -63,37 +63,51 @@ def run(ctx):
                 cases.append(m.gen(rng))
     for i, c in enumerate(cases):
         c["id"] = i
-    rc, res, err = vlib.run_jsonl("c16", [{k: v for k, v in c.items() if k in ("id", "system", "cfg", "sched", "auto")} for c in cases], timeout=1200)
-    byid = {r["id"]: r for r in res}
-    if rc != 0 or len(byid) != len(cases):
-        ctx.breaks.append({"what": "harness c16 failed (rc=%d, %d/%d results)" % (rc, len(byid), len(cases)), "detail": err[-2000:]})
-        return
     dist, outcomes, labels = {}, {}, {}
     steps_total = 0
     walks = {m.NAME: [] for m in SYSTEMS}
-    for c in cases:
-        m = bysys[c["system"]]
-        r = byid[c["id"]]
-        a = m.analyse(c, r)
-        key = "%s/%s/%s" % (c["system"], c.get("kind", "corpus"), ",".join("%s=%s" % kv for kv in sorted(c["cfg"].items())))
-        dist[key] = dist.get(key, 0) + 1
-        for ob in r["steps"]:
-            k2 = c["system"] + ":" + ob["outcome"]
-            outcomes[k2] = outcomes.get(k2, 0) + 1
-            if ob["outcome"] == "commit":
-                labels[ob["label"]] = labels.get(ob["label"], 0) + 1
-        steps_total += len(r["steps"])
-        ctx.add_case(json.dumps([c["system"], c["cfg"], a["explicit"]["sched"]]), a["nontrivial"])
-        for sig, what in a["fails"]:
-            ctx.failures.append({"signature": sig, "what": "%s: %s" % (c["system"], what), "case": a["explicit"],
-                                 "obs": [(o["proc"], o["label"], o["outcome"], o["picks"]) for o in r["steps"]][-40:]})
-        for b in a["breaks"]:
-            ctx.breaks.append({"what": "%s step harness: %s" % (c["system"], b), "case": a["explicit"]})
-        for k3, v3 in a.get("stats", {}).items():
-            stats = ctx.extra.setdefault("stats_" + c["system"], {})
-            stats[k3] = stats.get(k3, 0) + v3
-        if a["coq"] is not None:
-            walks[c["system"]].append((a, r))
+    # the harness is run in batches so that a thorough run does not hold every observation in memory
+    byid = {}
+    BATCH = 300
+    payload = [{k: v for k, v in c.items() if k in ("id", "system", "cfg", "sched", "auto")} for c in cases]
+    for b0 in range(0, len(cases), BATCH):
+        rc, res, err = vlib.run_jsonl("c16", payload[b0:b0 + BATCH], timeout=1800)
+        got = {r["id"]: r for r in res}
+        if rc != 0 or len(got) != len(payload[b0:b0 + BATCH]):
+            ctx.breaks.append({"what": "harness c16 failed (rc=%d, %d/%d results)" % (rc, len(got), len(payload[b0:b0 + BATCH])), "detail": err[-2000:]})
+            return
+        for c in cases[b0:b0 + BATCH]:
+            m = bysys[c["system"]]
+            r = got[c["id"]]
+            a = m.analyse(c, r)
+            key = "%s/%s/%s" % (c["system"], c.get("kind", "corpus"), ",".join("%s=%s" % kv for kv in sorted(c["cfg"].items())))
+            dist[key] = dist.get(key, 0) + 1
+            for ob in r["steps"]:
+                k2 = c["system"] + ":" + ob["outcome"]
+                outcomes[k2] = outcomes.get(k2, 0) + 1
+                if ob["outcome"] == "commit":
+                    labels[ob["label"]] = labels.get(ob["label"], 0) + 1
+            steps_total += len(r["steps"])
+            ctx.add_case(json.dumps([c["system"], c["cfg"], a["explicit"]["sched"]]), a["nontrivial"])
+            # keep only a compact trace of the observations
+            r = {"steps": [{"proc": o["proc"], "label": o["label"], "outcome": o["outcome"], "picks": o["picks"], "pc": o["pc"],
+                            "choices": o["choices"], "err": o.get("err", "")} for o in r["steps"]]}
+            if ctx.replay:
+                byid[c["id"]] = got[c["id"]]
+            for sig, what in a["fails"]:
+                ctx.failures.append({"signature": sig, "what": "%s: %s" % (c["system"], what), "case": a["explicit"],
+                                     "obs": [(o["proc"], o["label"], o["outcome"], o["picks"]) for o in r["steps"]][-40:]})
+            for b in a["breaks"]:
+                ctx.breaks.append({"what": "%s step harness: %s" % (c["system"], b), "case": a["explicit"]})
+            for k3, v3 in a.get("stats", {}).items():
+                stats = ctx.extra.setdefault("stats_" + c["system"], {})
+                stats[k3] = stats.get(k3, 0) + v3
+            if a["coq"] is not None:
+                walks[c["system"]].append((a, r))
+            elif len(walks[c["system"]]) < 2:
+                walks[c["system"]].append((a, r))
+            if len(ctx.failures) > 200 or len(ctx.breaks) > 200:
+                break
     ctx.extra["input_distribution"] = dist
     ctx.extra["steps_total"] = steps_total
     ctx.extra["step_outcomes"] = outcomes
@@ -162,8 +176,8 @@ MANIFEST = {
              "request except a not-yet-answered current one has exactly one answering server; location invariant: a waiting client's request sits in exactly one place). "
              "shopcart (complete for the instance the spec declares, ANodeBench + AWORSet): StrongConvergence, QueryOK, equal knowledge => equal query, add clocks monotone, "
              "remove maps stay Null, no ill-typed step. "
-             "proxy (_partial): ProxyOK under the perfect failure detector and NUM_SERVERS < 100, FAIL reported only if all servers stopped, FD accuracy proved; "
-             "assertion freedom open (oracle only). nestedcrdtimpl (_partial): MonotonicState (no component of any replica state decreases in any step), view never decreases; StateSanity as written in the spec is refuted (sums over sets; known finding, witness replayed on the generated code), the bound it intends and assertion freedom are oracle-only. replicatedkv: no model and no theorem, assertion-freedom walks only (oracle: failed assertion / TLA+ type error / crash in any of its five archetypes). The *.gotests programs: NOT covered. Tie: the generated archetypes "
+             "proxy (complete): ProxyOK under the perfect failure detector and NUM_SERVERS < 100, FAIL reported only if all servers stopped, FD accuracy; "
+             "assertion/type freedom incl. the client's resp.id = reqId (one-outstanding-request token invariant). nestedcrdtimpl: MonotonicState (no component of any replica state decreases in any step), view never decreases; StateSanity as written in the spec is refuted (it sums over SETS; known finding, witness replayed on the generated code) and the bound it intends (no replica shows more than the writes issued) is proved, with the handshake / write-accounting invariants and the Node's assertion freedom; only type-safety of the with-chosen send target is oracle-only. replicatedkv: no model and no theorem, assertion-freedom walks only (oracle: failed assertion / TLA+ type error / crash in any of its five archetypes). The *.gotests programs: NOT covered. Tie: the generated archetypes "
              "run under the real Run loop one attempt at a time over spec-state resources (the specs' mapping macros); each model runs the same schedule in Coq; every "
              "post-state and outcome compared; implementation-side oracles per system on the Go observations."),
     "level_note": ("Partial as stated per system; systems not modelled are not covered. Trusted: Coq kernel; hand-written models (differential tie: 108 quick / 5600 thorough "
